@@ -5,6 +5,7 @@ import (
 	"go/ast"
 	"go/token"
 	"go/types"
+	"golang.org/x/tools/go/ssa"
 	"strings"
 
 	"golang.org/x/tools/go/types/typeutil"
@@ -22,6 +23,7 @@ func checkC13(c *Ctx, r *Report) {
 	checkDMLookup(c, r)
 	// the symbol is looked up for lengths the mode encoders estimate: the Base 256 estimate is decided with its length field
 	checkDMBase256(c, r)
+	checkDMWriterLookup(c, r)
 	r.Note("not decided: that calculateBitsNeeded equals the number of bits the segment encoders later emit (loop arithmetic over the payload)")
 }
 
@@ -521,4 +523,60 @@ func checkDMLookup(c *Ctx, r *Report) {
 		r.AnchorLost("M-FIRSTFIT-DM", "datamatrix/encoder.EncoderContext.UpdateSymbolInfoByLength", "method not found")
 	}
 	_ = strings.Contains
+}
+
+// M-DMSAMEHINTS: the writer looks the symbol up under the constraints the high-level encoder padded for
+func checkDMWriterLookup(c *Ctx, r *Report) {
+	r.Rule("M-DMSAMEHINTS", "DataMatrixWriter.Encode hands SymbolInfo_Lookup the very shape, minimum size and maximum size values it handed EncodeHighLevel (which chose and padded for a symbol under them), with the number of codewords EncodeHighLevel returned and fail = true: looked up under other constraints, a different symbol of the same capacity can be drawn than the hints allow", 1)
+	f := c.ssaFunc("datamatrix", "DataMatrixWriter.Encode")
+	key := "datamatrix.DataMatrixWriter.Encode"
+	if f == nil {
+		r.AnchorLost("M-DMSAMEHINTS", key, "method not found")
+		return
+	}
+	r.Analysed(key)
+	var enc, look *ssa.Call
+	for _, b := range f.Blocks {
+		for _, in := range b.Instrs {
+			if call, ok := in.(*ssa.Call); ok {
+				if g := call.Call.StaticCallee(); g != nil {
+					switch g.Name() {
+					case "EncodeHighLevel":
+						enc = call
+					case "SymbolInfo_Lookup":
+						look = call
+					}
+				}
+			}
+		}
+	}
+	bad := ""
+	switch {
+	case enc == nil || look == nil:
+		bad = "EncodeHighLevel / SymbolInfo_Lookup calls not found"
+	case len(enc.Call.Args) != 4 || len(look.Call.Args) != 5:
+		bad = "unexpected signatures"
+	default:
+		for i, name := range []string{"shape", "minimum size", "maximum size"} {
+			if enc.Call.Args[1+i] != look.Call.Args[1+i] {
+				bad = fmt.Sprintf("the %s given to SymbolInfo_Lookup is not the value given to EncodeHighLevel", name)
+			}
+		}
+		// the length is len(<codewords returned by EncodeHighLevel>)
+		okLen := false
+		if lc, ok := look.Call.Args[0].(*ssa.Call); ok {
+			if bi, ok := lc.Call.Value.(*ssa.Builtin); ok && bi.Name() == "len" {
+				if ex, ok := lc.Call.Args[0].(*ssa.Extract); ok && ex.Tuple == ssa.Value(enc) && ex.Index == 0 {
+					okLen = true
+				}
+			}
+		}
+		if !okLen && bad == "" {
+			bad = "the lookup length is not the number of codewords EncodeHighLevel returned"
+		}
+		if cst, ok := look.Call.Args[4].(*ssa.Const); (!ok || cst.Value == nil || cst.Value.String() != "true") && bad == "" {
+			bad = "the lookup is not asked to fail when no symbol satisfies the constraints"
+		}
+	}
+	r.Check(bad == "", "M-DMSAMEHINTS", key, c.pos(f.Pos()), bad)
 }
